@@ -18,11 +18,25 @@ pub fn resolve_ifs(
         let asm::AstAny::DirectiveIf(node) = &ast.nodes[n]
             else { continue };
         
+        // Relative references in the condition are children of
+        // the symbol declared last before this directive
+        let symbol_ctx = ast.nodes[..n]
+            .iter()
+            .rev()
+            .find_map(|prev| match prev
+            {
+                asm::AstAny::Symbol(ast_symbol) => ast_symbol.item_ref,
+                _ => None,
+            })
+            .map(|item_ref| decls.symbols.get(item_ref).ctx.clone())
+            .unwrap_or(util::SymbolContext::new_global());
+
         let condition_result = 
             asm::resolver::eval_simple(
                 report,
                 decls,
                 defs,
+                &symbol_ctx,
                 &node.condition_expr)?;
 
         let expr::Value::Bool(condition_result) = condition_result
